@@ -39,6 +39,15 @@ def spec_st(draw):
     cell = [draw(FLT), draw(FLT), draw(FLT), draw(hs.one_of(hs.just(90.0), ANG)), draw(hs.one_of(hs.just(90.0), ANG)), draw(hs.one_of(hs.just(90.0), hs.just(120.0), ANG))]
     atoms = []
     # a cell without atoms is accepted by both the reader and AddCrystal: generated too (about one crystal in seven)
+    if draw(hs.integers(0, 11)) == 0:
+        # now and then a crystal with many atoms (counts around powers of two and beyond): the rows come from one drawn seed so that the
+        # example stays small for the shrinker
+        import random as _random
+        n = draw(hs.sampled_from([15, 16, 17, 31, 32, 33, 63, 64, 65, 127, 128, 129, 255, 256, 257, 600]))
+        r = _random.Random(draw(hs.integers(0, 2 ** 32 - 1)))
+        for _ in range(n):
+            atoms.append((r.randint(1, 98), r.choice((1.0, 0.5, round(r.uniform(0.05, 1.0), 6))), round(r.uniform(-1, 1), 6), round(r.uniform(-1, 1), 6), round(r.uniform(-1, 1), 6)))
+        return cell, atoms
     for _ in range(draw(hs.integers(0, 6))):
         atoms.append((draw(hs.integers(1, 98)), draw(hs.one_of(hs.just(1.0), OCC)), draw(COORD), draw(COORD), draw(COORD)))
     return cell, atoms
